@@ -30,7 +30,7 @@ theorem C01_parse_is_full_match (s pat : Str) (today : Nat × Nat × Nat) (v : V
   cases oc with
   | none => cases h
   | some r =>
-    simp only at h
+    simp only [parseWithRe] at h
     generalize hm : reMatch r s = om at h
     cases om with
     | none => cases h
